@@ -89,6 +89,15 @@ func (l *LRUCache) delete(node *list.Element) {
 	}
 
 	delete(l.nodeMap, key)
+	if key != key { // 不等于自身的 key(如: NaN)无法通过 delete 删除, 只能重建 map 去掉该节点
+		tmp := l.nodeMap
+		l.nodeMap = make(map[interface{}]*list.Element, len(tmp))
+		for k, v := range tmp {
+			if v != node {
+				l.nodeMap[k] = v
+			}
+		}
+	}
 	l.list.Remove(node)
 	if l.deleteCallBackFn != nil {
 		l.deleteCallBackFn(key, node.Value)
